@@ -144,6 +144,11 @@ func main() {
 	nviol := 0
 	// what the shared blob store holds, leaf by leaf in the order of storing (both users' messages: the blob store is one):
 	// decoded content (up to a final line break) -> where and under which transfer-encoding class it was submitted
+	var trees []*mimegen.Node
+	for _, it := range items {
+		trees = append(trees, it.tree)
+	}
+	twins := mimegen.NewTwins(trees)
 	held := map[string][]heldLeaf{}
 	leaf0 := make([]int, len(items))
 	count := 0
@@ -175,6 +180,26 @@ func main() {
 				rep.Violate("impl-violation", "tree (independent MIME reader vs Props.C02.tree_roundtrip)", what, []string{"msg " + hx.H(it.msg)})
 			}
 			continue
+		}
+		// a single-part message: the body octets are identical (no tolerance: not a line break more or less, no re-wrapping)
+		if !it.tree.Multi {
+			sb, fb := bodyOf(it.msg), bodyOf(it.fetch)
+			if it.via == "lmtp" && !strings.HasSuffix(sb, "\r\n") {
+				sb += "\r\n" // the DATA phase cannot carry a last line without its line end: that is what was submitted
+			}
+			if sb != fb {
+				what := fmt.Sprintf("single-part message %s (via %s, %s): the body octets differ: submitted %d octets ending %q, fetched %d octets ending %q", it.token, it.via, it.tree.CTE, len(sb), tailOf(sb, 24), len(fb), tailOf(fb, 24))
+				if twins.CrossEncoded(it.tree) {
+					rep.Finding("C02-F1", "cross-encoding de-duplication: "+what, []string{"msg " + hx.H(it.msg)})
+				} else {
+					nviol++
+					if nviol <= 3 {
+						rep.Violate("impl-violation", "single-part body octets (Props.C02.tree_roundtrip)", what, []string{"msg " + hx.H(it.msg)})
+					}
+				}
+				continue
+			}
+			rep.Hit("single-part:identical")
 		}
 		// header fields: order, names, values up to surrounding white space (MIME headers of a multipart are regenerated)
 		wantH := headerList(it.top)
@@ -209,6 +234,20 @@ func main() {
 type heldLeaf struct {
 	pos int
 	enc string
+}
+
+func bodyOf(msg string) string {
+	if i := strings.Index(msg, "\r\n\r\n"); i >= 0 {
+		return msg[i+4:]
+	}
+	return ""
+}
+
+func tailOf(s string, n int) string {
+	if len(s) > n {
+		return s[len(s)-n:]
+	}
+	return s
 }
 
 func leavesOf(n *mimegen.Node) []*mimegen.Node {
